@@ -442,7 +442,7 @@ class FileStore:
 
 
 class Executor:
-    def __init__(self, scenario, wall_s=10.0, wall_cap=60.0):
+    def __init__(self, scenario, wall_s=10.0, wall_cap=30.0):
         self.sc = scenario
         self.store = FileStore(scenario.get("files", {}))
         self.log = []          # event log (digest source)
@@ -1047,5 +1047,5 @@ def nlines_src(fobj):
         return None
 
 
-def execute(scenario, wall_s=10.0, wall_cap=60.0):
+def execute(scenario, wall_s=10.0, wall_cap=30.0):
     return Executor(scenario, wall_s=wall_s, wall_cap=wall_cap).run()
